@@ -214,7 +214,11 @@ fn u7_weak_new_inert() {
     kani::assert(wk.strong_count() == 0 && wk.weak_count() == 0, "U7.weak_new.counts_zero");
     let c = wk.clone();
     kani::assert(c.ptr_eq(&wk), "U7.weak_new.clone_ptr_eq");
-    drop(c);
+    // raw round trip of a dangling Weak keeps it dangling
+    let raw = c.into_raw();
+    let c2: Weak<u8> = unsafe { Weak::from_raw(raw) };
+    kani::assert(c2.ptr_eq(&wk) && c2.strong_count() == 0, "U7.weak_new.raw_roundtrip_stays_dangling");
+    drop(c2);
     drop(wk);
 }
 
